@@ -43,11 +43,10 @@ func (p *ConfigProp[T]) Overwrite(value T) {
 	p.onChange.Fire(value)
 }
 
-// Stages the new value, keeping the old. The change is not committed until CommitStaged is called.
+// Stages the new value, keeping the old. The change is not committed until CommitStaged is called,
+// and nobody is notified before NotifyCommitted.
 func (p *ConfigProp[T]) Stage(newValue T) {
 	commit, _ := p.value.Load()
-
-	oldVal := commit.ref().Original()
 
 	// Copy the old Overwritable to keep any command-line overwrites.
 	overwritable := commit.Value()
@@ -55,18 +54,38 @@ func (p *ConfigProp[T]) Stage(newValue T) {
 	commit.Stage(overwritable)
 
 	p.value.Store(commit)
-
-	if p.requiresRestart && (oldVal != newValue) {
-		setRestartNeeded()
-	}
-
-	p.onChange.Fire(newValue)
 }
 
 func (p *ConfigProp[T]) CommitStaged() {
 	commit, _ := p.value.Load()
 	commit.Commit()
 	p.value.Store(commit)
+}
+
+// Drops a staged value and undoes a commit that has not been confirmed by NotifyCommitted.
+func (p *ConfigProp[T]) RollbackStaged() {
+	commit, _ := p.value.Load()
+	commit.Rollback()
+	p.value.Store(commit)
+}
+
+// Confirms the committed value: flags a needed restart and tells the subscribers the value that is
+// now in effect (a command-line override keeps winning).
+func (p *ConfigProp[T]) NotifyCommitted() {
+	commit, _ := p.value.Load()
+	previous, hadPrevious := commit.Confirm()
+	p.value.Store(commit)
+	if !hadPrevious {
+		return
+	}
+
+	if p.requiresRestart && (previous.Original() != commit.ref().Original()) {
+		setRestartNeeded()
+	}
+
+	if effective := commit.ref().Get(); previous.Get() != effective {
+		p.onChange.Fire(effective)
+	}
 }
 
 func (p *ConfigProp[T]) String() string {
